@@ -83,11 +83,24 @@ def r2(ctx):
     p = ctx.prog
     f = p.func(f"{SCHED}._process_target")
     g = f.cfg
-    waits = [n for n in g.nodes.values() if _is_call(n, LOCK, "wait")]
-    ctx.require(len(waits) == 1, f"C12.R2: expected one wait_queue.wait() in _process_target, found {len(waits)}")
-    w = waits[0]
-    wcall = [c for c in w.calls() if isinstance(c.func, ast.Attribute) and c.func.attr == "wait" and unparse(c.func.value) == LOCK][0]
+    from ..model import ancestors as _anc0
+
+    # the retry wait: an awaited `<condition>.wait()` inside the retry loop (possibly wrapped in wait_for)
+    allw = [(n, c) for n in g.nodes.values() for c in n.calls()
+            if isinstance(c.func, ast.Attribute) and c.func.attr == "wait" and not c.args and not c.keywords]
+    ctx.require(len(allw) >= 1, "C12.R2: no condition wait found in _process_target")
+    own = [(n, c) for n, c in allw if unparse(c.func.value) == LOCK]
+    ctx.ob("R2", "the retry wait is on the scheduler-wide condition that notify_status notifies", len(own) == 1 and len(allw) == 1, func=f, node=allw[0][1],
+           instance="wait:same-condition",
+           message=f"the retry waits on `{unparse(allw[0][1].func.value)}` while notify_status wakes `{LOCK}`: capacity freed through another object "
+                   "(e.g. a deployment sharing the location) never wakes this request")
+    w, wcall = own[0] if own else allw[0]
     lock_stmt = under_lock(wcall)
+    # no other lock is held while sleeping: sibling target tasks (and notify_status behind them) would block on it
+    others = [unparse(i.context_expr) for a in _anc0(wcall) if isinstance(a, ast.AsyncWith) for i in a.items if unparse(i.context_expr) != LOCK]
+    ctx.ob("R2", "no other lock is held while the request sleeps on the condition", not others, func=f, node=wcall, instance="wait:no-other-lock",
+           message=f"the request sleeps on the condition while holding {others}: a sibling target task takes the scheduler lock and blocks on that lock, "
+                   "so notify_status can never run and nobody is woken (lock-order inversion)")
     ctx.ob("R2", "the wait happens while holding the condition lock", lock_stmt is not None, func=f, node=w.ast, instance="wait:locked")
     # enclosing while True
     from ..model import ancestors
@@ -193,11 +206,13 @@ def r3(ctx):
 
 
 RULES = [("R1", r1), ("R2", r2), ("R3", r3)]
-FLOORS = {"R1": 5, "R2": 8, "R3": 4}
+FLOORS = {"R1": 5, "R2": 10, "R3": 4}
 
 NS = f"{SCHED}.notify_status"
 PT = f"{SCHED}._process_target"
 VARIANTS = [
+    V("retry wait on a per-deployment condition", SFILE, PT, "self.wait_queue.wait()", "self.wait_queues.setdefault(deployment, asyncio.Condition(lock=self.wait_queue._lock)).wait()", "R2"),
+
     V("release detached into a task", SFILE, NS, "await self._free_resources(connector, job_allocation)", "asyncio.create_task(self._free_resources(connector, job_allocation))", "R1"),
     V("scheduled test hoisted out of the retry loop", SFILE, PT,
       "while True:\n            async with job_context.lock:\n                if job_context.scheduled:\n                    return",
